@@ -12,6 +12,8 @@
 (*           [f][r][b][j] as rationals                                        *)
 (*   dosK    run_tetrahedron_method_dos (phpy_tetrahedron_method_dos):        *)
 (*           ["I"][j][m], m = 1..NCoef projected, NCoef+1 total               *)
+(*   asc, dosKasc, wCasc, wPyasc   the sorting permutation of cs.ws and the    *)
+(*           same three calls with the frequency points in ascending order    *)
 (*   exact   every float -> rational projection had a residual < 1e-12        *)
 (*   cls     "offtie": no frequency of cs.ws coincides with a grid value;     *)
 (*           "tie": some do (the pinned code drops such simplices; the harness *)
@@ -62,6 +64,19 @@ ImplCellwiseC == MDone => ReqCellwise(cs, LoggedDos(mev.wC), cw)
 ImplDosKernel == MDone => ReqDos(cs, mev.dosK, dw)
 ImplDosKernelNonNegative == MDone => ReqNonNegative(cs, mev.dosK)
 ImplDosKernelAdditive == MDone => ReqAdditive(cs, mev.dosK)
+
+(* order of the frequency points: mev.asc sorts cs.ws; dosKasc / wCasc / wPyasc *)
+(* are the same calls on the real code with the points in ascending order       *)
+ImplAscIsOrder == mpc = "table" => IsAscendingOrder(cs, mev.asc)
+ImplPointwiseKernel == MDone => ReqPointwise(cs, mev.dosK)
+ImplOrderIndependentKernel == mpc = "table" => ReqSameAsAscending(cs, mev.asc, mev.dosK, mev.dosKasc)
+WeightsByPoint(wts) ==   \* [f][j] |-> the weights of all (r, b) at point j
+  [f \in DOMAIN wts |-> [j \in 1..Len(cs.ws) |->
+     [x \in (1..Len(wts[f])) \X (1..NBands(cs)) |-> wts[f][x[1]][x[2]][j]]]]
+ImplOrderIndependentMeshC ==
+  mpc = "table" => ReqSameAsAscending(cs, mev.asc, WeightsByPoint(mev.wC), WeightsByPoint(mev.wCasc))
+ImplOrderIndependentMeshPy ==
+  mpc = "table" => ReqSameAsAscending(cs, mev.asc, WeightsByPoint(mev.wPy), WeightsByPoint(mev.wPyasc))
 
 (* conformance with the step machine *)
 ConformsShortestDiagonal == mpc = "table" => ShortestDiagonal(mev.metric, cs.diag)
